@@ -34,7 +34,16 @@ def showBytes (bs : Bytes) : String :=
 
 /-- the deterministic message of `log <len> <seed>` -/
 def msgBytes (len seed : Nat) : Bytes :=
-  Array.ofFn (n := len) (fun i => UInt8.ofNat (32 + (seed + i.val * 7 + i.val / 89) % 95))
+  Array.ofFn (n := len) (fun i =>
+    if seed < 1000 then UInt8.ofNat (32 + (seed + i.val * 7 + i.val / 89) % 95)
+    else
+      -- multi-byte text: `seed % 3` ASCII letters, three-byte characters (U+20AC) while they fit, ASCII padding
+      let lead := seed % 3
+      if i.val < lead then 97
+      else
+        let j := i.val - lead
+        let full := (len - lead) / 3 * 3
+        if j < full then (if j % 3 = 0 then 0xe2 else if j % 3 = 1 then 0x82 else 0xac) else 122)
 
 
 /-! ### canonical text of documents and typed values -/
